@@ -23,7 +23,7 @@ ALIASES = {
 }
 
 BUILTINS = ('len', 'range', 'abs', 'isinstance', 'enumerate', 'list', 'set', 'int', 'float', 'iter', 'str',
-            'print', 'tuple', 'min', 'max', 'sum', 'zip', 'object', 'type', 'hasattr', 'getattr', 'id', 'any', 'all', 'frozenset', 'bool', 'sorted', 'setattr', 'reversed',
+            'print', 'tuple', 'min', 'max', 'sum', 'zip', 'object', 'type', 'hasattr', 'getattr', 'id', 'any', 'all', 'frozenset', 'bool', 'sorted', 'setattr', 'reversed', 'vars',
             'ValueError', 'TypeError', 'KeyError', 'NotImplementedError', 'AssertionError', 'ImportError',
             'DeprecationWarning', 'Exception', 'dict')
 
@@ -482,6 +482,34 @@ def np_allclose(ip, args, kwargs, node):
     return m
 
 
+def np_isclose(ip, args, kwargs, node):
+    ts = [ip.term_of(a, node)[0] for a in args[:2]]
+    if not any(P.is_pw(t) for t in ts) and ts[0].equals(ts[1]):
+        return TRUE
+    kinds = [getattr(a, 'kind', 'scalar') for a in args[:2]]
+    m = Mask(P.Cond.flag('isclose(%s,%s)' % tuple(sorted(P.show(t) for t in ts))), 'array' if 'array' in kinds else 'scalar')
+    return m
+
+
+def np_assert_allclose(ip, args, kwargs, node):
+    """numpy.testing.assert_allclose(actual, desired, rtol=1e-7, atol=0): an assertion whose DEFAULT tolerances are a hundred
+    times tighter than those of np.allclose -- recorded as an allclose with those tolerances made explicit"""
+    kw = dict(kwargs)
+    kw.pop('err_msg', None)
+    kw.pop('verbose', None)
+    kw.pop('equal_nan', None)
+    if 'rtol' not in kw:
+        kw['rtol'] = Num(N.NF.const(Fraction(1, 10 ** 7)))
+    if 'atol' not in kw:
+        kw['atol'] = Num(N.NF.const(0))
+    m = np_allclose(ip, list(args[:2]), kw, node)
+    b = ip.truth(m, node, ask=True)
+    ip.guards.append({'kind': 'assert', 'node': node, 'loc': ip.loc(node), 'value': b, 'func': ip.frames[-1].func.name, 'cond': m})
+    if b is False:
+        raise Raised('AssertionError', 'Not equal to tolerance', ip.loc(node))
+    return NONE
+
+
 def np_array_equal(ip, args, kwargs, node):
     ts = [ip.term_of(a, node)[0] for a in args[:2]]
     if not any(P.is_pw(t) for t in ts) and ts[0].equals(ts[1]):
@@ -687,6 +715,12 @@ def deepcopy(ip, args, kwargs, node):
         if isinstance(v, Obj):
             if v.oid in memo:
                 return memo[v.oid]
+            hook = ip.find_method(v, '__deepcopy__') if not isinstance(v.cls, str) else None
+            if hook is not None:
+                # a class that defines its own __deepcopy__: that method decides what a "copy" is
+                r = ip.call(hook, [Obj('dict', {'items': {}})], {}, node)
+                memo[v.oid] = r
+                return r
             o = Obj(v.cls, {}, None)
             memo[v.oid] = o
             for k, x in v.attrs.items():
@@ -712,6 +746,9 @@ def shallow_copy(ip, args, kwargs, node):
     """copy.copy: a new container / object whose fields are the *same* objects"""
     x = args[0]
     if isinstance(x, Obj):
+        hook = ip.find_method(x, '__copy__') if not isinstance(x.cls, str) else None
+        if hook is not None:
+            return ip.call(hook, [], {}, node)
         o = Obj(x.cls, dict(x.attrs), None)
         if x.cls == 'dict':
             o.attrs['items'] = dict(x.attrs['items'])
@@ -840,10 +877,24 @@ def ndim_of(ip, t):
         if len(m) == 1 and m[0][1] == 1 and m[0][0][0] == 'sym':
             k = ip.sym_kind.get(m[0][0][1])
             return {'tensor': 3, 'mat1': 3, 'curve': 1, 'col': 3}.get(k)
+    # an elementwise combination of stacks of matrices (and scalars) is a stack of matrices: numpy broadcasting keeps the
+    # three axes.  Only decided when every array-valued ingredient is a plain tensor / mat1 symbol.
+    kinds = set()
+    for a in t.all_atoms():
+        if a[0] == 'sym':
+            kinds.add(ip.sym_kind.get(a[1], 'scalar'))
+        elif a[0] == 'fn' and a[1] not in ('log', 'sin', 'cos', 'abs', 'exp'):
+            return None
+    kinds.discard('scalar')
+    if kinds and kinds <= {'tensor', 'mat1'}:
+        return 3
     return None
 
 
 def b_range(ip, args, kwargs, node):
+    for a in args:
+        if getattr(a, 'pyfloat', False):
+            raise Raised('TypeError', "'float' object cannot be interpreted as an integer", ip.loc(node))
     vals = [ip.term_of(a, node)[0] for a in args]
     if len(vals) == 1:
         lo, hi, st = N.NF.const(0), vals[0], N.NF.const(1)
@@ -1068,6 +1119,14 @@ def b_hasattr(ip, args, kwargs, node):
     raise Unsupported('hasattr on %r' % (o,), node)
 
 
+def b_vars(ip, args, kwargs, node):
+    """vars(obj) read as a snapshot of the instance attributes (R00.dyn admits it only in read positions)"""
+    if len(args) != 1 or not isinstance(args[0], Obj) or isinstance(args[0].cls, str):
+        raise Unsupported('vars() of %r' % (args[:1],), node)
+    o = args[0]
+    return Obj('dict', {'items': {k: v for k, v in o.attrs.items() if not k.startswith('_native_')}})
+
+
 def b_setattr(ip, args, kwargs, node):
     if len(args) != 3:
         raise Raised('TypeError', 'setattr expected 3 arguments', ip.loc(node))
@@ -1201,6 +1260,8 @@ def b_isinstance(ip, args, kwargs, node):
         if isinstance(c1, ClassRef):
             if isinstance(v, Obj) and isinstance(v.cls, type(c1.cls)) and v.cls.is_subclass_of(c1.cls):
                 return TRUE
+            if isinstance(v, Const) and isinstance(v.v, tuple) and len(v.v) == 2 and v.v[0] == c1.cls.name:
+                return TRUE       # a member of that enumeration
         elif isinstance(c1, Lib):
             want = _LIB_TYPES.get(c1.name)
             if want is None:
@@ -1329,6 +1390,8 @@ def b_int(ip, args, kwargs, node):
     if is_const_num(x):
         return const_num(int(num_value(x)))
     if isinstance(x, Num) and x.kind == 'scalar':
+        if getattr(x, 'pyfloat', False):
+            return Num(x.t, 'scalar')       # int(20.0): the same number, now an int
         return x
     raise Unsupported('int(%r)' % (x,), node)
 
@@ -1424,7 +1487,8 @@ CALLS = {
     'itertools.product': it_product, 'itertools.combinations': it_combinations(False),
     'itertools.combinations_with_replacement': it_combinations(True),
     'warnings.warn': w_warn,
-    'builtins.len': b_len, 'builtins.range': b_range, 'builtins.abs': b_abs, 'builtins.sum': b_sum, 'builtins.setattr': b_setattr, 'builtins.zip': b_zip, 'builtins.reversed': b_reversed, 'builtins.sorted': b_sorted, 'numpy.size': np_size, 'numpy.finfo': np_finfo, 'numpy.identity': np_identity, 'numpy.eye': np_identity,
+    'builtins.len': b_len, 'builtins.range': b_range, 'builtins.abs': b_abs, 'builtins.sum': b_sum, 'builtins.setattr': b_setattr, 'builtins.vars': b_vars, 'numpy.isclose': np_isclose,
+    'numpy.testing.assert_allclose': np_assert_allclose, 'numpy.ascontiguousarray': np_asarray, 'numpy.asfortranarray': np_copy, 'builtins.zip': b_zip, 'builtins.reversed': b_reversed, 'builtins.sorted': b_sorted, 'numpy.size': np_size, 'numpy.finfo': np_finfo, 'numpy.identity': np_identity, 'numpy.eye': np_identity,
     'operator.lt': op_fn('cmp', 'Lt'), 'operator.le': op_fn('cmp', 'LtE'), 'operator.gt': op_fn('cmp', 'Gt'), 'operator.ge': op_fn('cmp', 'GtE'),
     'operator.eq': op_fn('cmp', 'Eq'), 'operator.ne': op_fn('cmp', 'NotEq'), 'operator.add': op_fn('bin', 'Add'), 'operator.sub': op_fn('bin', 'Sub'),
     'operator.mul': op_fn('bin', 'Mult'), 'operator.truediv': op_fn('bin', 'Div'), 'builtins.max': b_minmax('max'), 'builtins.min': b_minmax('min'),
@@ -1561,8 +1625,10 @@ def shape_getitem(ip, o, args, kwargs, node):
     if kinds <= {'tensor', 'mat1'} and kinds:
         if i in (1, 2):
             return Num(ip.declare('n_types', integer=True), 'scalar')
-        if i == 0 and kinds == {'tensor'}:
-            return Num(ip.declare('L', integer=True), 'scalar')
+        if i == 0 and 'tensor' in kinds:
+            return Num(ip.declare('L', integer=True), 'scalar')      # a length-1 stack broadcasts against a full-length one
+        if i == 0 and kinds == {'mat1'}:
+            return const_num(1)
     if i == 0:
         return Num(length_of(ip, t), 'scalar')
     name = 'shape%d(%s)' % (i, P.show(t))
@@ -1591,6 +1657,32 @@ def seq_attr(ip, o, name, node):
                 raise Raised('ValueError', '%r is not in list' % (getattr(a[0], 'v', a[0]),), ip2.loc(n))
             return const_num(hits[0])
         return Native('list.' + name, find, o)
+    if name in ('add', 'discard', 'remove', 'update') and o.kind in ('set',):
+        def same(ip2, x, y, n):
+            if x is y:
+                return True
+            try:
+                return _dict_key(x, n) == _dict_key(y, n)
+            except Unsupported:
+                e = ip2.compare('Eq', x, y, n)
+                if isinstance(e, Const):
+                    return bool(e.v)
+                raise Unsupported('set membership with symbolic equality', n)
+
+        def setop(ip2, s, a, k, n):
+            items = a[0].items if name == 'update' and isinstance(a[0], Seq) else [a[0]]
+            for it in items:
+                present = [w for w in s.items if same(ip2, it, w, n)]
+                if name in ('add', 'update'):
+                    if not present:
+                        s.items.append(it)
+                else:
+                    if present:
+                        s.items.remove(present[0])
+                    elif name == 'remove':
+                        raise Raised('KeyError', repr(getattr(it, 'v', it)), ip2.loc(n))
+            return NONE
+        return Native('set.' + name, setop, o)
     if name == 'copy':
         return Native('list.copy', lambda ip2, s, a, k, n: Seq(list(s.items), s.kind), o)
     if name == 'extend':
@@ -1632,6 +1724,11 @@ def dictcomp(ip, node, env):
         return Obj('typemap', {})
     if isinstance(it, Types):
         return Obj('labeldict', {})
+    if isinstance(it, Obj) and it.cls == 'range':
+        conc = _concrete_items(ip, it, node)
+        if conc is None:
+            raise Unsupported('dict comprehension over a symbolic range', node)
+        it = Seq(conc, 'list')
     if isinstance(it, Seq):
         # concrete comprehension: a real (ordered) dict with constant keys
         from .interp import Env
@@ -1730,5 +1827,27 @@ def dict_items(ip, o, args, kwargs, node):
     return Seq([Seq([_key_value(o, k), v]) for k, v in o.attrs['items'].items()], 'list')
 
 
-DICT_METHODS = {'copy': dict_copy, '__getitem__': dict_getitem, '__setitem__': dict_setitem, 'get': dict_get, 'values': dict_values,
+def dict_update(ip, o, args, kwargs, node):
+    src = args[0] if args else None
+    if src is not None:
+        if isinstance(src, Obj) and src.cls == 'dict':
+            for k, v in src.attrs['items'].items():
+                o.attrs['items'][k] = v
+                if k in src.attrs.get('keyvals', {}):
+                    o.attrs.setdefault('keyvals', {})[k] = src.attrs['keyvals'][k]
+        elif isinstance(src, Seq):
+            for it in src.items:
+                if not (isinstance(it, Seq) and len(it.items) == 2):
+                    raise Unsupported('dict.update with %r' % (it,), node)
+                dict_setitem(ip, o, [it.items[0], it.items[1]], {}, node)
+        else:
+            raise Unsupported('dict.update with %r' % (src,), node)
+    for k, v in kwargs.items():
+        o.attrs['items'][k] = v
+    if o.origin is not None:
+        ip.event('write', o.origin, node, via='dict update')
+    return NONE
+
+
+DICT_METHODS = {'update': dict_update, 'copy': dict_copy, '__getitem__': dict_getitem, '__setitem__': dict_setitem, 'get': dict_get, 'values': dict_values,
                 'keys': dict_keys, 'items': dict_items, '__iter__': dict_keys}
